@@ -124,11 +124,12 @@ func placeWinMove(c *bitboard.Constants, p *tak.Position) tak.Move {
 func (pw *PlaceWins) Select(ctx context.Context, m *MonteCarloAI, p *tak.Position) *tak.Position {
 	if move := placeWinMove(&m.c, p); move.Type != 0 {
 		out, e := p.MovePreallocated(move, pw.uniform.alloc)
-		if e != nil {
-			panic("placeWinMove: bad move")
+		if e == nil {
+			pw.uniform.alloc = p
+			return out
 		}
-		pw.uniform.alloc = p
-		return out
+		// The winning square cannot be taken with a flat (e.g. no
+		// flat stones left in reserve); fall back to a random move.
 	}
 	return pw.uniform.Select(ctx, m, p)
 }
